@@ -7,8 +7,8 @@ CONSTANTS
   Cap = 2
   MaxNow = 1
   Budget = 3
-  MaxExt = 3
-  MaxSel = 3
+  MaxExt = 2
+  MaxSel = 2
   MaxSpur = 1
   Base0 = {}
   Variant = "ok"
